@@ -574,7 +574,15 @@ func GenProgram(t *rapid.T, prof *Profile, doc Doc) *Program {
 			if a != b {
 				// (option names may contain dots: they are names, not paths)
 				sep := rapid.SampledFrom([]string{"_", "_", "."}).Draw(t, "option_name_sep")
-				fields = append(fields, F("pick", OneOf("which", F("opt"+sep+a.ID, StepRef(a.ID, "outputs", "success")), F("opt"+sep+b.ID, StepRef(b.ID, "outputs", "success")))))
+				// (nor does the order of the names say anything about which option is produced first)
+				na, nb := "opt"+sep+a.ID, "opt"+sep+b.ID
+				if rapid.Bool().Draw(t, "option_names_swapped_order") {
+					na, nb = "z"+na, "y"+nb
+					if a.ID > b.ID {
+						na, nb = "y"+na[1:], "z"+nb[1:]
+					}
+				}
+				fields = append(fields, F("pick", OneOf("which", F(na, StepRef(a.ID, "outputs", "success")), F(nb, StepRef(b.ID, "outputs", "success")))))
 			}
 		}
 		if len(plug) >= 2 && g.pct(50, "optional_two_sources") {
@@ -594,7 +602,11 @@ func GenProgram(t *rapid.T, prof *Profile, doc Doc) *Program {
 				}
 				continue
 			}
-			switch rapid.IntRange(0, 8).Draw(t, "out_tag") {
+			switch rapid.IntRange(0, 9).Draw(t, "out_tag") {
+			case 8:
+				// the disabled message of a step that may be enabled and still never start (its input never
+				// comes): absent as soon as the step is known to be enabled
+				fields = append(fields, F("wd_"+s.ID, Opt("wait-optional", StepRef(s.ID, "disabled", "output", "message"))))
 			case 7:
 				// an error-path stage of a step that (in these profiles) never takes it: once the step has
 				// ended another way the field is absent
